@@ -21,8 +21,9 @@ import logging  # noqa: E402
 logging.disable(logging.CRITICAL)  # the repository logs expected failures verbosely; checks report through their own lines
 
 CONTRACTS = os.path.join(HERE, "contracts")
-REPLAYS = os.path.join(HERE, "replays")
-EVIDENCE = os.path.join(HERE, "evidence")
+# scratch runs against a patched copy of the sources (try_patch.sh) must not overwrite the evidence of the real tree
+REPLAYS = os.environ.get("VERIF_REPLAY_DIR") or os.path.join(HERE, "replays")
+EVIDENCE = os.environ.get("VERIF_EVIDENCE_DIR") or os.path.join(HERE, "evidence")
 
 PYTHON_SEMANTICS_ASSUMED = [
     "pyvc encoding of CPython 3.12: evaluation order, short-circuiting, iterator protocol, try/finally, definite assignment (DESIGN 4)",
